@@ -96,7 +96,8 @@ Q q_civil_anchors()
     vf_assert(k_civil(-719529) == pack(-1, 12, 31), "civil(-719529) == -0001-12-31");
     vf_assert(k_civil(-865566) == pack(-400, 2, 29), "civil(-865566) == -0400-02-29");
 }
-// the same date as libstdc++ produces, directly (two different algorithms; the solver shows them equal on the whole range)
+// the same date as libstdc++ produces, directly (Hinnant vs Neri-Schneider: no verdict on the whole range within 300 s, ~100-240 s per 400-year era;
+// the runner asks for era 4 in the thorough tier; the whole-range claim rests on L1 + L2)
 Q q_civil_std()
 {
     int32_t z = nd_z(); era_z(z);
